@@ -213,7 +213,8 @@ def _mk_wf(lens, kw):
     return Wavefront(lens, fields=kw.get('fields', 'all'),
                      wavelengths=kw.get('wavelengths', 'all'),
                      num_rays=kw.get('n', 3),
-                     distribution=mk_dist(kw.get('dist', 'hexapolar')))
+                     distribution=kw.get('dist_obj') or
+                     mk_dist(kw.get('dist', 'hexapolar')))
 
 
 @_reg('OPDFan')
@@ -335,7 +336,19 @@ def do_step(lens, slots, st):
                 obs['ret'] = canon(lens.n(wl_of(lens, st['wi'])),
                                    squeeze1=False)
             elif c == 'new':
-                o = ANALYSES[st['cls']](lens, st.get('kw', {}))
+                kw = dict(st.get('kw', {}))
+                dobj = None
+                if not isinstance(kw.get('dist', 'x'), str):
+                    dobj = mk_dist(kw['dist'])     # the caller's own object
+                    keep = (dobj.x.copy(), dobj.y.copy())
+                    kw['dist_obj'] = dobj
+                try:
+                    o = ANALYSES[st['cls']](lens, kw)
+                finally:
+                    if dobj is not None and not (
+                            np.array_equal(keep[0], dobj.x) and
+                            np.array_equal(keep[1], dobj.y)):
+                        mutated.append('distribution')
                 slots[st['slot']] = o
                 obs['obj'] = snap_obj(o)
             elif c == 'method':
@@ -572,6 +585,23 @@ KINDS = [('trace', 3), ('tg', 3), ('paraxial', 3), ('aberr', 1.5),
          ('faulty', 1.5)]
 
 
+def build_lens(ops):
+    """Build operations, optionally followed by pickup / solve / update /
+    set_* operations (a lens that carries pickups and solves, up to date or
+    deliberately stale), applied through the history engine's World."""
+    if not any(o.get('op') in ('pickup', 'solve', 'update', 'set_radius',
+                               'set_conic', 'set_thickness') for o in ops):
+        return sut.new_lens(ops)
+    from engines import history
+    w = history.World('C13', {})
+    try:
+        for op in ops:
+            w.step(op)
+    except (history.Violation, history.Abort):
+        pass
+    return w.lens
+
+
 def lens_digest(lens):
     with quiet(), warnings.catch_warnings():
         warnings.simplefilter('ignore')
@@ -602,7 +632,7 @@ def execute(prop, hist):
 
     def probe(name, n=1):
         stats['probes'][name] = stats['probes'].get(name, 0) + n
-    shared = [sut.new_lens(ops) for ops in lenses_ops]
+    shared = [build_lens(ops) for ops in lenses_ops]
     dig0 = [lens_digest(L) for L in shared]
     pos = [0] * len(clients)
     slots = [{} for _ in clients]
@@ -726,7 +756,7 @@ def execute(prop, hist):
         for ci, cl in enumerate(clients):
             if pos[ci] == 0:
                 continue
-            priv = sut.new_lens(lenses_ops[cl['lens'] % len(shared)])
+            priv = build_lens(lenses_ops[cl['lens'] % len(shared)])
             sl = {}
             for k in range(pos[ci]):
                 st = cl['script'][k]
@@ -770,6 +800,48 @@ def _key(where):
                     if x and not x.isdigit())
 
 
+def gen_managers(ch, build):
+    """pickup / solve operations for a lens, then either update() (a lens
+    that is up to date) or a further edit of a pickup source with no update
+    (a stale lens: still "unchanged" as far as the clients are concerned)."""
+    from engines import history
+    w = history.World('C13', {})
+    try:
+        for op in build:
+            w.step(op)
+    except (history.Violation, history.Abort):
+        return []
+    sw = {'kinds': ['pickup', 'solve'], 'weights': {'pickup': 1.5,
+                                                     'solve': 1},
+          'nasty': 0.0}
+    extra = []
+    for _ in range(ch.randint(1, 3)):
+        op = history.gen_edit(ch, w, sw)
+        if op is None:
+            continue
+        try:
+            if w.step(op):
+                extra.append(op)
+        except (history.Violation, history.Abort):
+            return []
+    if not extra:
+        return []
+    extra.append({'op': 'update'})
+    if ch.chance(0.5) and w.model.pickups:
+        p = ch.pick(w.model.pickups, tag='stale')
+        if p['attr'] == 'radius':
+            extra.append({'op': 'set_radius', 'k': p['src'], 'v': ch.rounded(
+                w.model.surfs[p['src']]['radius'] * ch.uniform(1.05, 1.3))})
+        elif p['attr'] == 'conic':
+            extra.append({'op': 'set_conic', 'k': p['src'],
+                          'v': ch.rounded(ch.uniform(-1.5, 0.5), 4)})
+        else:
+            extra.append({'op': 'set_thickness', 'k': p['src'],
+                          'v': ch.rounded(w.model.surfs[p['src']]['t'] *
+                                          ch.uniform(1.05, 1.3))})
+    return extra
+
+
 def run_one(prop, run_seed, run_index, cfg):
     ch = rng.Chooser(run_seed)
     nl = ch.weighted([(1, 3), (2, 1)], tag='nlenses')
@@ -787,6 +859,8 @@ def run_one(prop, run_seed, run_index, cfg):
             ops, m = lensgen.gen_lens(ch, feats, harsh=ch.chance(0.2),
                                       max_surf=8)
             meta = {'n': m['nsurf'] + 2}
+            if ch.chance(0.25):
+                ops = ops + gen_managers(ch, ops)
         lenses.append(ops)
         metas.append(meta)
     nc = ch.randint(2, cfg.get('max_clients', 5), tag='nclients')
